@@ -157,6 +157,7 @@ static void h_exec(const plan_t *p)
     maxn = (int)p->cfg[CF_MAXN]; if (maxn < 1) maxn = 4; if (maxn > MAXN - 8) maxn = MAXN - 8;
     clear_frees = (int)p->cfg[CF_CLEARFREES];
     next_id = 0; maxreach = 0;
+    memset(hp, (int)(unsigned char)p->cfg[CF_JUNK], sizeof hp);
     for (i = 0; i < 2; i++) {
         cstl_heap_init(&hp[i], cmp_prio, NULL, offsetof(struct helem, hn));
         mh[i].n = 0; mh[i].since_clear = -1;
